@@ -205,3 +205,24 @@ def unflat_jax(v, template):
             out.append(parts[k].reshape(shp))
             k += 1
     return jax.tree_util.tree_unflatten(td, out)
+
+
+def enable_compile_cache():
+    """Persistent XLA compilation cache under /verif/scratch/jaxcache (git-ignored).
+
+    The nifty.re checks run NIFTy un-jitted, so every (primitive, shape, dtype) combination is
+    compiled as its own tiny XLA executable; with a cold cache that is most of the run time.
+    The cache is keyed by the HLO module / jaxlib version / compile options, i.e. it can only
+    return what a fresh compilation would produce; it is an optimisation, never an input of a
+    verdict.  Any failure to set it up is ignored."""
+    import os
+    try:
+        import jax
+        root = os.path.dirname(os.path.dirname(os.path.abspath(__file__)))
+        path = os.path.join(root, "scratch", "jaxcache")
+        os.makedirs(path, exist_ok=True)
+        jax.config.update("jax_compilation_cache_dir", path)
+        jax.config.update("jax_persistent_cache_min_compile_time_secs", 0.0)
+        jax.config.update("jax_persistent_cache_min_entry_size_bytes", -1)
+    except Exception:
+        pass
